@@ -169,7 +169,7 @@ def run_strict_merge(case):
   from ml_metrics._src.chainables import io, transform  # pylint: disable=g-import-not-at-top
   n, j, kind = case['n'], case['j'], case['kind']
   data = [{'a': [i, i + 1]} for i in range(n + 2)]
-  shape = {'filter': False, 'second_agg': case['second_agg']}
+  shape = {'filter': False, 'second_agg': case['second_agg'], 'chain2': bool(case.get('chain2'))}
   runner = dist.define_pipeline(data, shape).make()
   if kind == 'transform_runner':
     runner = runner._runners[-1]  # pylint: disable=protected-access
@@ -178,9 +178,9 @@ def run_strict_merge(case):
     it = dist.define_pipeline(data, shape, i, n).make().iterate()
     list(it)
     states.append(it.agg_state)
-  what = f'{kind}.merge_states(states[:{j}], strict_states_cnt={n})'
+  what = f'{kind}.merge_states(states[:{j}], strict_states_cnt={n}) chain2={shape["chain2"]} stream={case.get("stream", True)}'
   try:
-    merged = runner.merge_states(iter(states[:j]), strict_states_cnt=n)
+    merged = runner.merge_states(iter(states[:j]) if case.get('stream', True) else states[:j], strict_states_cnt=n)
   except ValueError:
     check(j != n, 'complete-states-rejected', f'{what} raised ValueError although all states are present')
     return {'nontrivial': True, 'classes': ['strict-merge-rejects']}
@@ -196,8 +196,9 @@ def run_strict_merge(case):
 
 def strat_strict(tier):
   return st.integers(1, 5).flatmap(lambda n: st.builds(
-      lambda j, k, sa: {'n': n, 'j': j, 'kind': k, 'second_agg': sa}, st.integers(0, n),
-      st.sampled_from(['chained_runner', 'transform_runner']), st.booleans()))
+      lambda j, k, sa, c2, stream: {'n': n, 'j': j, 'kind': k, 'second_agg': sa and not (c2 and k == 'chained_runner'),
+                                    'chain2': c2 and k == 'chained_runner', 'stream': stream}, st.integers(0, n),
+      st.sampled_from(['chained_runner', 'transform_runner']), st.booleans(), st.booleans(), st.booleans()))
 
 
 SCENARIOS = [
@@ -205,6 +206,6 @@ SCENARIOS = [
              shards={'quick': 10, 'thorough': 16}, nondeterministic=True),
     Scenario('interleaved', run_interleaved, strategy=strat_interleaved, setup=setup, budget={'quick': 250, 'thorough': 2500},
              shards={'quick': 5, 'thorough': 16}, nondeterministic=True),
-    Scenario('strict_merge', run_strict_merge, strategy=strat_strict, budget={'quick': 120, 'thorough': 600},
+    Scenario('strict_merge', run_strict_merge, strategy=strat_strict, budget={'quick': 300, 'thorough': 1500},
              shards={'quick': 1, 'thorough': 4}),
 ]
